@@ -89,13 +89,15 @@ def oracle(case, outs):
         tt = t[2:] if t.startswith("T:") else t
         if tt.startswith("E:io:"):
             seen.append(tt[5:])
-    it = iter(codes)
+    # every reported I/O error is one the source injected, each at most once.  The order of REPORTING may differ from the order
+    # of injection: an error met by next() is queued behind the Ends that precede it, and a try_recover() in between reports its
+    # own read error first (found by the scaled thorough tier; model and code agree on it).
+    pool = list(codes)
     for c in seen:
-        for x in it:
-            if x == c:
-                break
+        if c in pool:
+            pool.remove(c)
         else:
-            return "read error code %s was not injected by the source (or out of order): script %s -> %s" % (c, script, out[:300])
+            return "read error code %s was not injected by the source (or reported twice): script %s -> %s" % (c, script, out[:300])
     # fused: with a source that never pauses or fails, a None means the source is exhausted
     if "p" not in script.split(",") and not codes:
         ops = f[5]
